@@ -375,9 +375,9 @@ def samples(draw):
 
 PHASES = [
     Phase("histories", run_history, strategy=history,
-          examples={"quick": 4000, "thorough": 40000}),
+          examples={"quick": 4000, "thorough": 120000}),
     Phase("fresh-process", run_fresh, strategy=small_history,
-          examples={"quick": 240, "thorough": 2400}, shrink=False),
+          examples={"quick": 240, "thorough": 6000}, shrink=False),
     Phase("parallel-grow", run_parallel, strategy=parallel_history,
           examples={"quick": 120, "thorough": 1200}, shrink=False,
           shards={"quick": 4, "thorough": 8}),
